@@ -899,3 +899,109 @@ func driverMapPairingRule(c *Ctx, rule string) {
 		c.r.ok(rule, "updogDriver", "the open function updates no driver map other than the connection cache")
 	}
 }
+
+func init() {
+	addRule("C14", "C14.evalnil — an expression's eval never reports success with a nil bitmap: every successful return yields the result of a roaring constructor/combinator, a cache hit, or a value a dominating (or edge) test shows to be non-nil — a nil result panics in the cache, in Execute or in the enclosing operator, and the handler has no recover (an AND without operands decodes fine from the wire).",
+		func(c *Ctx) { evalNilRule(c, "C14.evalnil") })
+}
+
+func evalNilRule(c *Ctx, rule string) {
+	var nonNil func(v ssa.Value, at ssa.Instruction, facts []cmp, depth int) bool
+	nonNil = func(v ssa.Value, at ssa.Instruction, facts []cmp, depth int) bool {
+		if depth > 6 || v == nil {
+			return false
+		}
+		for _, cm := range facts {
+			if cm.Op == token.NEQ && cm.Y != nil && cm.X == v && isNilConst(cm.Y) {
+				return true
+			}
+		}
+		switch x := v.(type) {
+		case *ssa.Call:
+			n := calleeName(&x.Call)
+			if strings.HasPrefix(n, roaringPkg+".") || strings.HasPrefix(n, "(*"+roaringPkg+".Bitmap).") {
+				return typeIs(x.Type(), roaringPkg, "Bitmap")
+			}
+			// a module helper all of whose successful returns are non-nil
+			if h := calleeFunc(&x.Call); h != nil && c.w.inModule(h) && h.Blocks != nil && depth < 3 {
+				ok, n := true, 0
+				allInstrs(h, func(i ssa.Instruction) {
+					ret, isRet := i.(*ssa.Return)
+					if !isRet || isRecoverBlockReturn(ret) || len(ret.Results) == 0 {
+						return
+					}
+					n++
+					if !nonNil(retVals(ret)[0], ret, cmpsAt(ret), depth+1) {
+						ok = false
+					}
+				})
+				return ok && n > 0
+			}
+		case *ssa.Extract:
+			if call, ok := x.Tuple.(*ssa.Call); ok && x.Index == 0 {
+				// cache hit: Get's bitmap where its found flag is known true
+				if call.Call.IsInvoke() && call.Call.Method.Name() == "Get" && namedOf(call.Call.Value.Type()) == c.a.CacheIface {
+					if okv := extractOf(call, 1); okv != nil {
+						for _, cm := range facts {
+							if cm.Y == nil && cm.Op == token.EQL && cm.X == ssa.Value(okv) {
+								return true
+							}
+						}
+					}
+					return false
+				}
+				// a helper returning (bitmap, error): non-nil where the helper's successful returns are
+				if h := calleeFunc(&call.Call); h != nil && c.w.inModule(h) && h.Blocks != nil && depth < 3 {
+					ok, n := true, 0
+					allInstrs(h, func(i ssa.Instruction) {
+						if !isSuccessReturn(i) {
+							return
+						}
+						n++
+						ret := i.(*ssa.Return)
+						if !nonNil(retVals(ret)[0], ret, cmpsAt(ret), depth+1) {
+							ok = false
+						}
+					})
+					return ok && n > 0
+				}
+			}
+		case *ssa.Phi:
+			for k, e := range x.Edges {
+				ef := cmpsOnEdge(x.Block().Preds[k], x.Block())
+				if !nonNil(e, x, ef, depth+1) {
+					return false
+				}
+			}
+			return len(x.Edges) > 0
+		case *ssa.Alloc, *ssa.MakeInterface:
+			return true
+		}
+		return c.fc.nonNilAt(v, at)
+	}
+	n := 0
+	for _, T := range c.a.ExprImpls {
+		ev := c.a.methodOf(T, "eval")
+		if ev == nil {
+			continue
+		}
+		k := 0
+		allInstrs(ev, func(i ssa.Instruction) {
+			if !isSuccessReturn(i) {
+				return
+			}
+			ret := i.(*ssa.Return)
+			if len(ret.Results) != 2 {
+				return
+			}
+			n++
+			k++
+			key := fmt.Sprintf("%s: return#%d", safeFname(ev), k)
+			c.r.check(nonNil(retVals(ret)[0], ret, cmpsAt(ret), 0), rule, key, "successful results are non-nil bitmaps",
+				"an expression's evaluation can report success with a bitmap that may be nil (e.g. the accumulator of an incremental fold that is only assigned inside the operand loop: an AND without operands, which decodes fine from the wire, leaves it nil): the next use of the result panics and takes the server down", c.w.ipos(ret))
+		})
+	}
+	if n == 0 {
+		c.r.undecided(rule, "<vacuity>", "no successful return in any eval method")
+	}
+}
